@@ -325,7 +325,10 @@ def write_evidence(prop, P, tier, seed, runs, first, obs, failures, violations, 
     open_findings = [l for l in known_lines]
     if open_findings and level == "proof":
         level = "other"
-    samples = [dict(obligation=o["id"], clause=o["text"], source=o["src"], discharged=o["discharged"]) for o in ob_list[:12]]
+    # show the property's own clauses first (tagged contract clauses, inherited trait clauses, lemmas), safety bundles last
+    pref = sorted(ob_list, key=lambda o: (o["clause"] == "safety", "[%s" % prop not in o.get("text", "") and prop not in str(o.get("tags", "")), o["id"]))
+    step = max(1, len(pref) // 12)
+    samples = [dict(obligation=o["id"], clause=o["text"], source=o["src"], discharged=o["discharged"]) for o in (pref[:6] + pref[6::step][:6])]
     cov = dict(
         obligations=len(ob_list),
         discharged=discharged,
